@@ -87,12 +87,14 @@ enum
 {
     BAD_NONE, BAD_TIME_NAN, BAD_TIME_PINF, BAD_TIME_NINF, BAD_TIME_ZERO, BAD_TIME_NEG, BAD_TIME_BELOW, BAD_TIME_DENORM,
     BAD_WP_NAN, BAD_WP_PINF, BAD_WP_NINF, BAD_BC_NAN, BAD_BC_PINF, BAD_BC_NINF, BAD_START_NAN, BAD_START_INF,
-    BAD_ROWS_PLUS, BAD_ROWS_MINUS, BAD_EMPTY_TIMES, BAD_EMPTY_ALL, OK_TIME_AT, OK_TIME_ABOVE, BAD_N
+    BAD_ROWS_PLUS, BAD_ROWS_MINUS, BAD_EMPTY_TIMES, BAD_EMPTY_ALL, OK_TIME_AT, OK_TIME_ABOVE,
+    OK_HUGE_WP, OK_HUGE_BC, OK_HUGE_TIME, OK_HUGE_START, BAD_N
 };
 static const char *const kBadNames[] = {"none", "time_nan", "time_pinf", "time_ninf", "time_zero", "time_negative", "time_one_ulp_below_1ms",
                                         "time_denormal", "waypoint_nan", "waypoint_pinf", "waypoint_ninf", "bc_nan", "bc_pinf", "bc_ninf",
                                         "start_nan", "start_inf", "one_row_too_many", "one_row_too_few", "empty_times", "empty_everything",
-                                        "time_exactly_1ms", "time_one_ulp_above_1ms"};
+                                        "time_exactly_1ms", "time_one_ulp_above_1ms", "huge_finite_waypoint_row", "huge_finite_boundary_state",
+                                        "huge_finite_duration", "huge_finite_start_time"};
 
 // The predicate of C16, evaluated on exactly what the library is given.
 template <int DIM>
